@@ -23,7 +23,7 @@ vars == <<reg, scope, tables, hist, done>>
 
 Stds == {"f2003", "f2008"}
 \* units (= top-level symbol tables) of the valid programs of the alphabet (texts in mbt/checks/lifecycle.py)
-Units(p) == CASE p = "V1" -> {"a"} [] p = "V2" -> {"m", "p"} [] p = "V3" -> {"fparser2:main_program"} [] OTHER -> {}
+Units(p) == CASE p = "V1" -> {"a"} [] p = "V2" -> {"m", "p"} [] p = "V3" -> {"fparser2:main_program"} [] p = "V4" -> {"o"} [] OTHER -> {}
 
 Init == reg = "none" /\ scope = "" /\ tables = {} /\ hist = <<>> /\ done = FALSE
 
